@@ -538,19 +538,24 @@ def resample_index_rule(ctx, rule="ROLE-one-index"):
     ck = Checker(ctx, ev, lin, rule, "smc.resample_vectorized_trace", func_loc(ctx, dotted))
     TRC, LW, NS, METH = ("param", "trace"), ("param", "log_weights"), ("param", "n_samples"), ("param", "method")
     seen = {}
-    for asg, leaf in all_cases(s.ret):
-        which = None
-        for c, v in asg.items():
-            cc, vv = (("cmp", "==", c[2], c[3]), not v) if (c[0] == "cmp" and c[1] == "!=") else (c, v)
-            if cc[0] == "cmp" and cc[1] == "==" and cc[2] == METH and cc[3][0] == "const":
-                if vv and which is None:
-                    which = cc[3][1]
-                elif vv:
-                    which = "conflict"
-            else:
-                raise AnalysisError(f"smc.resample_vectorized_trace: unrecognised condition {short(c, ev)}")
-        if which == "conflict":
-            continue
+    # the path taken for each value of `method` is found by evaluating the path conditions with `method` bound to that value (finite model):
+    # any spelling of the dispatch (==, !=, in/not in a tuple, a dict lookup guard, guard clause first) is handled alike
+    from ..absint import Model, Unknown
+    cases = all_cases(s.ret)
+    for which_val in ("categorical", "systematic", "no-such-method"):
+        chosen = []
+        for asg, leaf in cases:
+            m = Model(evaluator=ev)
+            m.bind(METH, which_val)
+            try:
+                if all(bool(m.truth(c)) == bool(v) for c, v in asg.items()):
+                    chosen.append(leaf)
+            except Unknown as e:
+                raise AnalysisError(f"smc.resample_vectorized_trace: path condition not decidable for method={which_val!r}: {e}")
+        if len(chosen) != 1:
+            raise AnalysisError(f"smc.resample_vectorized_trace: {len(chosen)} paths for method={which_val!r}")
+        leaf = chosen[0]
+        which = None if which_val == "no-such-method" else which_val
         raises = leaf[0] == "raise" or any(x[0] == "raise" for x in subterms(leaf))
         if which is None:
             if not raises:
@@ -631,7 +636,21 @@ def smc_lin(ev):
     return mk_lin(ev, extra=[pc_nonnull_axiom])
 
 
+def lanes_norm(t):
+    """lanes(f(...))[i] for a mapped function that returns a GFI method's result tuple directly is lanes(f(...)[i])."""
+    if isinstance(t, tuple) and t and t[0] == "idx" and t[1][0] == "lanes" and t[2][0] == "const" and isinstance(t[2][1], int) \
+            and t[1][2][0] == "call" and t[1][2][1][0] == "attr" and t[1][2][1][2] in ("generate", "assess", "update", "regenerate"):
+        return ("lanes", t[1][1], ("idx", t[1][2], t[2]))
+    return t
+
+
+def lanes_axiom(x):
+    r = lanes_norm(x)
+    return r if r is not x and r != x else None
+
+
 def lanes_body(t):
+    t = lanes_norm(t)
     return t[2] if (isinstance(t, tuple) and t and t[0] == "lanes") else None
 
 
@@ -686,7 +705,7 @@ def smc_init_rule(ctx, rule="ALG-smc"):
     ev = smc_ev(ctx)
     dotted = SMC + "init"
     s = summarize(ctx, ev, dotted)
-    lin = mk_lin(ev)
+    lin = mk_lin(ev, extra=[lanes_axiom])
     ck = Checker(ctx, ev, lin, rule, "smc.init", func_loc(ctx, dotted))
     G, A, NS, CON, PG = (("param", n) for n in ("target_gf", "target_args", "n_samples", "constraints", "proposal_gf"))
     saw = set()
@@ -702,6 +721,7 @@ def smc_init_rule(ctx, rule="ALG-smc"):
         if f is None:
             ck.fail("returns a ParticleCollection", f"found {short(leaf, ev, 200)}")
             continue
+        f["traces"], f["log_weights"] = lanes_norm(f["traces"]), lanes_norm(f["log_weights"])
         tb, wb = lanes_body(f["traces"]), lanes_body(f["log_weights"])
         if tb is None or wb is None or f["traces"][1] != f["log_weights"][1]:
             ck.fail("traces and weights come from one vectorised importance-sampling call", f"found {short(f['log_weights'], ev, 200)}")
@@ -756,7 +776,8 @@ def smc_extend_rule(ctx, rule="ALG-smc"):
     otr, ow, pa = (("lane", vid, a, C(0)) for a in (("attr", PARTS, "traces"), ("attr", PARTS, "log_weights"), EA))
     star = ("star", targs(pa))
     saw = set()
-    for (asg, tleaf), (_, wleaf) in zip(all_cases(tb), all_cases(wb)):
+    for asg, pair in all_cases(("tuple", (tb, wb))):
+        tleaf, wleaf = pair[1]
         pol = None
         for c, v in asg.items():
             r = none_test(c, EP)
@@ -1123,63 +1144,78 @@ def families_rule(ctx, rule="ROLE-vi-family"):
         P = ("param", "params")
         ND = ("param", "n_dims")
 
-        def est_of(asg):
-            est = None
-            for c, v in asg.items():
-                cc, vv = (("cmp", "==", c[2], c[3]), not v) if (c[0] == "cmp" and c[1] == "!=") else (c, v)
-                if cc[0] == "cmp" and cc[1] == "==" and cc[2] == GE and cc[3][0] == "const":
-                    if vv:
-                        est = cc[3][1] if est is None else "conflict"
-                else:
-                    raise AnalysisError(f"vi.{fam}: unrecognised condition {short(c, ev)}")
-            return est
+        # the path taken for each value of `gradient_estimator` is found by evaluating the path conditions with the parameter bound to that
+        # value (finite model): ==/!= chains, `in` a tuple, a dict of estimators with a membership guard, a lookup helper ... are handled alike
+        from ..absint import Model, Unknown, Opq, Raised
+        from .util import resolve_deep
+
+        def pick(cases, est_val, where):
+            chosen = []
+            for asg, leaf in cases:
+                m = Model(evaluator=ev)
+                m.bind(GE, est_val)
+                try:
+                    if all(bool(m.truth(c)) == bool(v) for c, v in asg.items()):
+                        chosen.append((asg, leaf))
+                except Unknown as e:
+                    raise AnalysisError(f"vi.{fam}: {where} path condition not decidable for gradient_estimator={est_val!r}: {e}")
+                except KeyError:
+                    chosen.append((asg, ("raise", C("KeyError"))))
+            if len(chosen) != 1:
+                raise AnalysisError(f"vi.{fam}: {len(chosen)} {where} paths for gradient_estimator={est_val!r}")
+            return chosen[0]
 
         seen = set()
         raised_for_unknown = False
-        for asg, leaf in all_cases(s.ret):
+        for est in ("reparam", "reinforce", "no-such-estimator"):
+            asg, leaf = pick(all_cases(s.ret), est, "outer")
             if leaf[0] == "raise":
-                if est_of(asg) is None:
+                if est not in MV:
                     raised_for_unknown = True
+                else:
+                    ck.fail(f"[{est}] estimator supported", "raises")
                 continue
             if not (is_call(leaf, name=CORE + "gen") and leaf[2] and leaf[2][0][0] == "closure"):
                 ck.fail("returns a @gen variational family", f"found {short(leaf, ev, 200)}")
                 continue
-            from .util import resolve_deep
             body = resolve_deep(ev.apply_closure(leaf[2][0], (("param", "constraint"), P), ()), asg)
-            for asg2, b in all_cases(body):
-                est = est_of({**asg, **asg2})
-                if est == "conflict":
-                    continue
-                raises = b[0] == "raise" or any(x[0] == "raise" for x in subterms(b))
-                if est is None:
-                    if raises:
-                        raised_for_unknown = True
-                    else:
-                        ck.fail("unknown estimator raises", f"found {short(b, ev, 120)}")
-                    continue
-                if est not in MV:
-                    continue
+            asg2, b = pick(all_cases(body), est, "inner")
+            raises = b[0] == "raise" or any(x[0] == "raise" for x in subterms(b))
+            if est not in MV:
                 if raises:
-                    ck.fail(f"[{est}] estimator supported", "raises")
-                    continue
-                seen.add(est)
-                if not (b[0] == "binop" and b[1] == "@" and is_call(b[2]) and b[3] == C("x")):
-                    ck.fail("family samples one addressed multivariate normal", f"found {short(b, ev, 200)}")
-                    continue
-                d = b[2]
-                ck.eq(f"[{est}] estimator primitive", d[1], N(MV[est]))
-                if len(d[2]) != 2:
-                    ck.fail("mvnormal(mean, covariance)", f"found {short(d, ev)}")
-                    continue
-                mean, cov = d[2]
-                if fam.startswith("mean_field"):
-                    ck.eq("mean = params[:n_dims]", mean, ("idx", P, ("slice", NONE, ND, NONE)))
-                    std = call(N("jax.numpy.exp"), ("idx", P, ("slice", ND, NONE, NONE)))
-                    ck.eq("covariance = diag(exp(log_std)²)", cov, call(N("jax.numpy.diag"), ("binop", "**", std, C(2))))
+                    raised_for_unknown = True
                 else:
-                    ck.eq("mean = params['mean']", mean, ("idx", P, C("mean")))
-                    ch = ("idx", P, C("chol_cov"))
-                    ck.eq("covariance = L Lᵀ", cov, ("binop", "@", ch, ("attr", ch, "T")))
+                    ck.fail("unknown estimator raises", f"found {short(b, ev, 120)}")
+                continue
+            if raises:
+                ck.fail(f"[{est}] estimator supported", "raises")
+                continue
+            seen.add(est)
+            if not (b[0] == "binop" and b[1] == "@" and is_call(b[2]) and b[3] == C("x")):
+                ck.fail("family samples one addressed multivariate normal", f"found {short(b, ev, 200)}")
+                continue
+            d = b[2]
+            # the estimator primitive may be selected by an expression (a dict lookup): its value under this binding
+            m = Model(evaluator=ev)
+            m.bind(GE, est)
+            try:
+                prim = m.ev(d[1])
+            except (Unknown, KeyError) as e:
+                raise AnalysisError(f"vi.{fam}: estimator expression not evaluable for {est!r}: {e}")
+            if prim != Opq("name", MV[est]):
+                ck.fail(f"[{est}] estimator primitive", f"expected {MV[est]}, found {prim!r}")
+            if len(d[2]) != 2:
+                ck.fail("mvnormal(mean, covariance)", f"found {short(d, ev)}")
+                continue
+            mean, cov = d[2]
+            if fam.startswith("mean_field"):
+                ck.eq("mean = params[:n_dims]", mean, ("idx", P, ("slice", NONE, ND, NONE)))
+                std = call(N("jax.numpy.exp"), ("idx", P, ("slice", ND, NONE, NONE)))
+                ck.eq("covariance = diag(exp(log_std)²)", cov, call(N("jax.numpy.diag"), ("binop", "**", std, C(2))))
+            else:
+                ck.eq("mean = params['mean']", mean, ("idx", P, C("mean")))
+                ch = ("idx", P, C("chol_cov"))
+                ck.eq("covariance = L Lᵀ", cov, ("binop", "@", ch, ("attr", ch, "T")))
         if seen != {"reparam", "reinforce"}:
             ck.fail("both estimators analysed", f"{sorted(seen)}")
         if not raised_for_unknown:
@@ -1195,7 +1231,8 @@ def elbo_vi_rule(ctx, rule="ROLE-elbo_vi"):
     want = ("call", N(VI + "optimize_vi"), (), (("elbo_fn", call(N(VI + "elbo_factory"), P("target_gf"), P("variational_family"), P("constraint"), P("target_args"))),
                                                    ("init_params", P("init_params")), ("learning_rate", P("learning_rate")),
                                                    ("n_iterations", P("n_iterations")), ("track_history", P("track_history"))))
-    if s.ret == want:
+    lin = mk_lin(ev)
+    if lin.norm(s.ret) == lin.norm(want):   # keyword / positional spellings of the two repo-local calls are one term
         ctx.ok(rule, "vi.elbo_vi")
     else:
         ctx.bad(rule, "vi.elbo_vi", "pipeline wiring", f"expected optimize_vi(elbo_factory(target, family, constraint, target_args), ...), found {short(s.ret, ev, 300)}", func_loc(ctx, dotted))
